@@ -51,3 +51,18 @@ TEXT["C15"] = dict(
                "types under several strict weak orders add the non-0/1 evidence.",
     level_note="trusts the zero-one principle and the harness's order/permutation checks; CS_IfSwap is "
                "exercised as the conditional-swap policy (the only one tlx ships)")
+TEXT["C14"] = dict(
+    engine="offline-oracle",
+    design_ref="DESIGN.md section 4, C14",
+    technique="runtime chunking-invariance monitor + offline python oracle (hashlib, independent SipHash-2-4) over the recorded log, under ASan+UBSan",
+    level_text="Every message length 0..1100 (all padding boundaries of both block sizes) is fed to the "
+               "real MD5/SHA-1/SHA-256/SHA-512 classes under every two-call split and many multi-call "
+               "chunkings; all must equal the single-call digest, and that digest is recomputed by "
+               "python hashlib from a log of (algorithm, message generator, digest) records; hex forms "
+               "are checked against the raw bytes. SipHash: plain, SSE2 and dispatcher must agree at "
+               "every buffer alignment for lengths 0..129, and the value is recomputed by an independent "
+               "SipHash-2-4 anchored on the paper's vectors. Exhaustive over lengths and split points, "
+               "sampled over content, keys and multi-way partitions.",
+    level_note="trusts hashlib/OpenSSL, the oracle's SipHash (self-tested on published vectors at every "
+               "run) and the shared message generator (splitmix64) being identical in C++ and python -- "
+               "a mismatch there would raise alarms, not hide defects")
